@@ -465,3 +465,26 @@ func stripRecv(t types.Type) types.Type {
 	}
 	return t
 }
+
+// releaseWorld drops what the process-wide caches hold for a program that is no longer needed
+// (a selftest / audit variant): its functions in canonByFn, and the object-keyed caches, whose
+// keys would otherwise keep every variant's type-checked program reachable.
+func releaseWorld(w *World) {
+	if w == nil {
+		return
+	}
+	canonMu.Lock()
+	var drop func(f *ssa.Function)
+	drop = func(f *ssa.Function) {
+		delete(canonByFn, f)
+		for _, an := range f.AnonFuncs {
+			drop(an)
+		}
+	}
+	for _, f := range w.AllFuncs {
+		drop(f)
+	}
+	canonMu.Unlock()
+	ifaceNameCache.Range(func(k, _ any) bool { ifaceNameCache.Delete(k); return true })
+	constGlobalCache.Range(func(k, _ any) bool { constGlobalCache.Delete(k); return true })
+}
